@@ -194,3 +194,23 @@ Example c01_wild_first_nonvacuous :
   above_first_b wm_cfg wm_hist = true /\ above_first_b wd_cfg wd_hist = true /\
   above_first_b wl_cfg wl_hist = false /\ above_first_b il_cfg il_hist = false /\ above_first_b wl_cfg_disc wl_hist_disc = false.
 Proof. vm_compute. repeat split; reflexivity. Qed.
+
+(* the same with blocks AT the first streamable block allowed: no block UNDER it, and (rooted modes) a configured
+   LIB that is weakly coherent with the history (its id is the id of a block of the history, or its children are
+   higher than its number).  In discovery mode -- the hub's configuration -- the only condition on the history
+   besides wf_b is "no block under the first streamable block". *)
+Theorem c01_wild_first_le_partial : c01_wild_first_le_statement.
+Proof. exact c01_wild_first_le_proved. Qed.
+Print Assumptions c01_wild_first_le_partial.
+
+(* non-vacuity: wm_hist with the first streamable block AT the height of its lowest block (11); each witness
+   violates exactly one hypothesis: witness 1 and 3 feed blocks under the first streamable block (their configured
+   LIB is coherent), witness 2 has no block under the first streamable block but its configured LIB is not even
+   weakly coherent *)
+Definition wm_cfg11 : config := mkCfg 11 false false 1 true (mkFilter true true true true) None.
+Example c01_wild_first_le_nonvacuous :
+  not_under_first_b wm_cfg11 wm_hist = true /\ above_first_b wm_cfg11 wm_hist = false /\ lib_weak_coh_b wl_r0 wm_hist = true /\
+  not_under_first_b wl_cfg wl_hist = false /\ lib_weak_coh_b wl_r0 wl_hist = true /\
+  not_under_first_b il_cfg il_hist = true /\ lib_weak_coh_b il_r0 il_hist = false /\
+  not_under_first_b wl_cfg_disc wl_hist_disc = false.
+Proof. vm_compute. repeat split; reflexivity. Qed.
